@@ -1,4 +1,6 @@
 import GbVerif.Model.Cache
+import GbVerif.Model.X86Wf
+import GbVerif.Proofs.Enum
 /-!
 C01 — translated blocks have the same architectural effect as the interpreter.
 (Structural facts first; the x86 model and per-template simulation lemmas are added by `Proofs/X86*.lean`.)
@@ -12,5 +14,30 @@ def statusClass (st : Nat) : Nat :=
 /-- RETI returns STATUS_INTERRUPT_ENABLE from translated code and STATUS_INTERRUPT_ENABLE_IMMEDIATE from the interpreter:
 the same outcome for the block-stepped core -/
 theorem reti_status_same_class : statusClass 4 = statusClass 5 := by decide
+
+open GbVerif.Enum GbVerif.X86 GbVerif.X86Wf
+
+/-- **emit_wf (unprefixed)**: for every defined unprefixed encoding the code produced by the real emitter (regenerated table)
+decodes completely inside the modelled x86-64 subset; every `rel8` jump goes forward to an instruction boundary inside the
+template or to its end; on every path pushes and pops balance, never pop below the entry depth, and `[rsp+d]` accesses stay
+inside the slots the template itself pushed; `call rax` happens only with a bus-helper pointer in rax and the memory base in
+rdi; rsp, rbp, r8–r11 are never written, r14 only by a status move or the zero-flag idiom; control never leaves the template
+other than by falling off its end -/
+theorem emit_wf_unprefixed : ∀ b0, b0 < 2^8 → ((Gen.emitOp b0).isEmpty || wfTemplate (Gen.emitOp b0)) = true :=
+  forall_lt_of_allRange (fun b0 => (Gen.emitOp b0).isEmpty || wfTemplate (Gen.emitOp b0)) 8 (by decide +kernel)
+
+/-- **emit_wf (CB page)** -/
+theorem emit_wf_cb : ∀ b1, b1 < 2^8 → wfTemplate (Gen.emitCb b1) = true :=
+  forall_lt_of_allRange (fun b1 => wfTemplate (Gen.emitCb b1)) 8 (by decide +kernel)
+
+/-- **host_intact (static part)**: the entry stub saves rbx rbp r12–r15 (then the two arguments it needs later), the exit stub
+pops the register-file pointer, restores exactly those six registers in reverse order and returns; the block tail pops the
+exit stub's address and jumps to it -/
+theorem host_frame_symmetric :
+    (decodeCode Gen.emitPrologue).map pushes = some [3, 5, 12, 13, 14, 15, 7, 2] ∧
+    (decodeCode Gen.emitEpilogue).map pops = some [7, 15, 14, 13, 12, 5, 3] ∧
+    (decodeCode Gen.emitBlockEnd).map (fun c => c.map (·.2)) = some [.pop 7, .jmpReg 7] ∧
+    ((decodeCode Gen.emitEpilogue).map fun c => c.getLast?.map (·.2)) = some (some .ret) := by
+  decide +kernel
 
 end GbVerif.C01
